@@ -38,6 +38,7 @@ const (
 	modeKeypad      = -1 // keypad application mode (ESC = / ESC >)
 	modeKittyKB     = -2 // depth of the kitty keyboard flag stack pushed by this program
 	modeCursorShape = -3 // DECSCUSR value last written
+	modePointerText = -4 // 1 iff the pointer shape last requested (OSC 22) is "text", the shape terminals start with
 )
 
 func parseTemplate(s string) *tokTemplate {
@@ -72,6 +73,10 @@ func parseTemplate(s string) *tokTemplate {
 	case s == "\x1b[%d q":
 		// DECSCUSR: the cursor shape, kept in the mode table under the pseudo mode -3 (the value is the shape)
 		t.kind, t.mode, t.set, t.nargs = "mode", tokItem{lit: modeCursorShape, hole: -1}, 3, 1
+		return t
+	case s == "\x1b]22;%s\x1b\\":
+		// OSC 22: the pointer shape; the mode table records under the pseudo mode -4 whether it is "text"
+		t.kind, t.mode, t.set, t.nargs = "mode", tokItem{lit: modePointerText, hole: -1}, 4, 1
 		return t
 	case s == "\x1b[<u":
 		t.kind, t.mode, t.set = "mode", tokItem{lit: modeKittyKB, hole: -1}, -2
@@ -416,6 +421,12 @@ func (ex *Exec) applyToken(st *State, tk *Token) {
 		case 3:
 			if len(tk.args) == 1 && tk.args[0].Tm != nil {
 				st.heap[mk.Name] = c.Store(tbl, m, tk.args[0].Tm)
+			} else {
+				ex.havocKey(st, mk)
+			}
+		case 4:
+			if len(tk.args) == 1 && tk.args[0].Tm != nil {
+				st.heap[mk.Name] = c.Store(tbl, m, c.Ite(c.Eq(tk.args[0].Tm, ex.W.StrLit("text")), c.IntLit(1), c.IntLit(0)))
 			} else {
 				ex.havocKey(st, mk)
 			}
